@@ -339,7 +339,7 @@ PROPS = {
              "stop-the-world-verified quiescence. (A) 2 goroutines x 1 operation: EVERY pair of operations, EVERY complete schedule "
              "(depth-first over the release choices with replay from the start; the number of schedules found on the real code is "
              "compared with the model's own exhaustive count); (B) 2 x 2 operations: every schedule of three fixed and a seeded "
-             "selection of program pairs (all pairs in the thorough tier), counts compared likewise; (C) seeded random walks over "
+             "selection of program pairs (13 resp. 11 in quick, 153 each in thorough), counts compared likewise; (C) seeded random walks over "
              "2-3 goroutines x 1-3 operations in which goroutines are also sent into a held mutex (at most one waiter); (D) the "
              "double-Close scenarios. Compared per schedule: where every goroutine is after every release (point name / blk / end / "
              "pan), every return value, channel identities (nil / sentinel / c0, c1 by first appearance), which channels are closed "
@@ -376,5 +376,18 @@ PROPS = {
         trusted=COMMON_TRUST + ["real panics, out-of-bounds reads and allocation sizes are runtime facts: evidenced by running the entry "
                                 "points under recover and with allocation measurements, not proved"],
         assumptions=[],
+    ),
+    "C07": dict(
+        modules=["Drpc.Props.C07", "Drpc.Tie.C03", "Drpc.Tie.Manager"],
+        suites=["stream", "e2e"],
+        rule="stream suite: every completed transport write of a real Stream (sequential and parked histories incl. parked Marshal, "
+             "failing writes, concurrent terminal calls) is parsed by the independent Go reference parser: whole frames, ids "
+             "non-decreasing, one kind per id, nothing after a done frame, never two writes in flight; observations equal the "
+             "atomic-step model's. e2e families delivery+cancel+fault: the complete byte stream each endpoint handed to the transport "
+             "over whole connections (several streams, cancels, faults) satisfies the same, plus: never two reads in flight, the "
+             "transport closed at most once per manager",
+        trusted=E2E_TRUST,
+        assumptions=["the succession of streams on one connection (next stream only after the previous is finished) is explored by "
+                     "the e2e suite; the per-stream invariants are theorems"],
     ),
 }
